@@ -1,0 +1,80 @@
+//go:build verif
+
+// Contracts for the deductive checks in /verif (comment-only; not part of normal builds).
+// Syntax: see /verif/DESIGN.md section 4.
+
+package model
+
+//@ pred validTS(t *Timestamp) = t != nil && t.Lamport < 9223372036854775808 && t.Era < 2147483648
+//@ pred validID(t *OperationID) = t != nil && t.Lamport < 9223372036854775808 && t.Era < 2147483648
+
+// lexicographic order on (Era, Lamport, CUID)
+//@ pred tsLess(a *Timestamp, b *Timestamp) = a.Era < b.Era || (a.Era == b.Era && (a.Lamport < b.Lamport || (a.Lamport == b.Lamport && strlt(a.CUID, b.CUID))))
+//@ pred tsSame(a *Timestamp, b *Timestamp) = a.Era == b.Era && a.Lamport == b.Lamport && a.CUID == b.CUID
+//@ pred idLess(a *OperationID, b *OperationID) = a.Era < b.Era || (a.Era == b.Era && (a.Lamport < b.Lamport || (a.Lamport == b.Lamport && strlt(a.CUID, b.CUID))))
+//@ pred idSame(a *OperationID, b *OperationID) = a.Era == b.Era && a.Lamport == b.Lamport && a.CUID == b.CUID
+
+//@ func (*Timestamp).Compare
+//@   mode bv
+//@   props C02 C15
+//@   requires validTS(its) && validTS(o)
+//@   ensures[less]    (result == -1) == tsLess(its, o)
+//@   ensures[greater] (result == 1) == tsLess(o, its)
+//@   ensures[equal]   (result == 0) == tsSame(its, o)
+//@   ensures[range]   result == -1 || result == 0 || result == 1
+//@   modifies nothing
+
+//@ func (*OperationID).Compare
+//@   mode bv
+//@   props C02 C15
+//@   requires validID(its) && validID(other)
+//@   ensures[less]    (result == -1) == idLess(its, other)
+//@   ensures[greater] (result == 1) == idLess(other, its)
+//@   ensures[equal]   (result == 0) == idSame(its, other)
+//@   ensures[range]   result == -1 || result == 0 || result == 1
+//@   modifies nothing
+
+//@ func (*OperationID).Next
+//@   mode bv
+//@   props C15
+//@   ensures[seq+1]     its.Seq == old(its.Seq) + 1
+//@   ensures[lamport+1] its.Lamport == old(its.Lamport) + 1
+//@   ensures[copy]      result != nil && result != its && result.Era == its.Era && result.Lamport == its.Lamport && result.CUID == its.CUID && result.Seq == its.Seq
+//@   ensures[fresh]     fresh(result)
+//@   ensures[frame]     its.Era == old(its.Era) && its.CUID == old(its.CUID)
+//@   ensures[others]    forall p *OperationID :: p != its && old(allocated(p)) ==> p.Seq == old(p.Seq) && p.Lamport == old(p.Lamport) && p.Era == old(p.Era) && p.CUID == old(p.CUID)
+//@   modifies OperationID.Lamport, OperationID.Seq, OperationID.Era, OperationID.CUID
+
+//@ func (*OperationID).RollBack
+//@   mode bv
+//@   props C15
+//@   ensures[seq-1]     its.Seq == old(its.Seq) - 1
+//@   ensures[lamport-1] its.Lamport == old(its.Lamport) - 1
+//@   ensures[others]    forall p *OperationID :: p != its ==> p.Seq == old(p.Seq) && p.Lamport == old(p.Lamport)
+//@   modifies OperationID.Lamport, OperationID.Seq
+
+//@ func (*OperationID).SyncLamport
+//@   mode bv
+//@   props C15
+//@   requires its.Lamport < 9223372036854775808 && other < 9223372036854775808
+//@   ensures[ge-other]  its.Lamport >= other
+//@   ensures[ge-old]    its.Lamport >= old(its.Lamport)
+//@   ensures[strict]    its.Lamport > old(its.Lamport) || its.Lamport == other
+//@   ensures[exact]     its.Lamport == (old(its.Lamport) < other ? other : old(its.Lamport) + 1)
+//@   ensures[result]    result == its.Lamport
+//@   ensures[others]    forall p *OperationID :: p != its ==> p.Lamport == old(p.Lamport)
+//@   modifies OperationID.Lamport
+
+//@ func (*OperationID).GetTimestamp
+//@   mode bv
+//@   props C15
+//@   ensures result != nil && fresh(result) && result.Era == its.Era && result.Lamport == its.Lamport && result.CUID == its.CUID && result.Delimiter == 0
+//@   modifies Timestamp.Era, Timestamp.Lamport, Timestamp.CUID, Timestamp.Delimiter
+
+//@ func (*Timestamp).GetAndNextDelimiter
+//@   mode bv
+//@   props C15
+//@   ensures[copy]  result != nil && fresh(result) && result.Era == old(its.Era) && result.Lamport == old(its.Lamport) && result.CUID == old(its.CUID) && result.Delimiter == old(its.Delimiter)
+//@   ensures[next]  its.Delimiter == old(its.Delimiter) + 1 && its.Era == old(its.Era) && its.Lamport == old(its.Lamport) && its.CUID == old(its.CUID)
+//@   ensures[others] forall p *Timestamp :: p != its && old(allocated(p)) ==> p.Era == old(p.Era) && p.Lamport == old(p.Lamport) && p.CUID == old(p.CUID) && p.Delimiter == old(p.Delimiter)
+//@   modifies Timestamp.Era, Timestamp.Lamport, Timestamp.CUID, Timestamp.Delimiter
